@@ -56,6 +56,24 @@ def run(rep, tier, seed):
                 rule.field_descriptors[k_] = gen_rfd(rnd, f_, rnd.choice(['ns', 'vs', 'vsv', 'lsb', 'lsbv', 'map']), old_.direction)
                 case_compress(b, pd, rule, d, klass='compress-after-edit:' + stack)
                 case_compress(b, pd, rule, rnd.choice([DI.UP, DI.DOWN]), klass='compress-after-edit:' + stack)
+            if j >= 1:
+                # the CALLER rewrites a field value of the long-lived packet descriptor in place (same Buffer object, other bits: another key of
+                # the rule's mapping) and compresses again with the same rule: the residue is the index of the value the field holds NOW
+                from core import given_items as _gi
+                from microschc.rfc8724 import CompressionDecompressionAction as _CDA, MatchMapping as _MM
+                ks_ = [k for k, rf in enumerate(rule.field_descriptors) if rf.compression_decompression_action == _CDA.MAPPING_SENT
+                       and isinstance(rf.target_value, _MM) and k < len(pd.fields) and rf.id == pd.fields[k].id]
+                if ks_ and len(rule.field_descriptors) == len(pd.fields):
+                    k_ = rnd.choice(ks_)
+                    fv_ = pd.fields[k_].value
+                    was_ = bits_of(fv_)
+                    others_ = [bits_of(key) for key, _ in _gi(rule.field_descriptors[k_].target_value) if bits_of(key) != was_]
+                    if others_:
+                        case_compress(b, pd, rule, d, klass='compress-before-field-edit:' + stack)
+                        fv_[0:fv_.length] = mk(rnd.choice(others_), rnd.choice([L, R]))
+                        case_compress(b, pd, rule, d, klass='compress-after-field-edit:' + stack)
+                        fv_[0:fv_.length] = mk(was_, L)
+                        case_compress(b, pd, rule, d, klass='compress-after-field-edit:' + stack)
         if i % 3 == 1:
             # the direction is the ARGUMENT of compress, not the direction recorded in the packet descriptor (they may differ):
             # a rule with separate Up and Dw descriptors must be read for the argument
